@@ -629,9 +629,36 @@ fn matches_expect(e: &Expect, g: &Got, ent: &EntSpec) -> bool {
 }
 
 pub fn c03_judge(c: &ServeCase, o: &ServeObs, sink: &mut Sink) -> (Verdict, Option<u64>) {
-    // the property speaks about GET requests carrying only a Range header
-    if c.method != "GET" || c.hdrs.iter().any(|(k, _)| !k.eq_ignore_ascii_case("range")) || c.hdrs.len() > 1 {
-        return (Verdict::DontCare("not a GET carrying only Range".into()), None);
+    // the property speaks about GET requests whose Range header is what decides: Range alone, or
+    // next to preconditions that let the request through and an If-Range that must be honoured
+    if c.method != "GET" {
+        return (Verdict::DontCare("not a GET".into()), None);
+    }
+    if c.hdrs.iter().any(|(k, _)| !k.eq_ignore_ascii_case("range")) || c.hdrs.len() > 1 {
+        const KNOWN: [&str; 6] = ["range", "if-range", "if-match", "if-none-match", "if-modified-since", "if-unmodified-since"];
+        let mut seen: Vec<String> = Vec::new();
+        for (k, _) in &c.hdrs {
+            let k = k.to_ascii_lowercase();
+            if !KNOWN.contains(&k.as_str()) || seen.contains(&k) {
+                return (Verdict::DontCare("header outside the judged set, or repeated".into()), None);
+            }
+            seen.push(k);
+        }
+        let im = c.hdr("if-match").map(cond::parse_tag_list);
+        let inm = c.hdr("if-none-match").map(cond::parse_tag_list);
+        let pre = match (hdr_date_secs(c.hdr("if-modified-since")), hdr_date_secs(c.hdr("if-unmodified-since"))) {
+            (Ok(ims), Ok(ius)) => cond::evaluate(c.ent.etag.as_deref(), c.ent.mtime.map(|m| m.0), im.as_ref(), inm.as_ref(), ims, ius),
+            _ => None,
+        };
+        if pre != Some(cond::Outcome::Continue) {
+            return (Verdict::DontCare("a precondition does not (clearly) let the request through".into()), None);
+        }
+        if let Some(v) = c.hdr("if-range") {
+            if !(cond::is_tag(v) && !cond::is_weak(v) && c.ent.etag.as_deref() == Some(v)) {
+                return (Verdict::DontCare("If-Range that need not be honoured (C05)".into()), None);
+            }
+        }
+        sink.count("judged_next_to_other_headers");
     }
     let rv = match c.hdr("range") {
         Some(v) => v,
@@ -820,7 +847,7 @@ impl Prop for C03 {
         "exploration"
     }
     fn rule(&self, ctx: &Ctx) -> String {
-        format!("requests carrying only Range. (a) exhaustive: entity lengths 1..={}, all sets of 1..{} specs in the three forms with positions 0..=L+2, separators ',' ', ' ',\\t'; (b) boundary: lengths {:?} with positions {{0,1,2,L-2..L+2,L/2,2^32,2^63,2^64-2,2^64-1,2^64,10^30}}, 1..4 specs; (c) multipart threshold sweep on L in {{1000,5000,10^6,2^63,2^64-1}} with 2..8 ranges around the 'plus 80 each under half' and 'sum >= L' lines and just inside 'sum + 80n < L', for entities with 0 / 80 / 250 / 1000 header bytes; (d) near-misses outside the grammar. Non-trivial = distinct (Range value, L) that is a grammatical bytes= set and was compared with the RFC 7233 model (status, Content-Range, parsed multipart ranges)",
+        format!("requests carrying only Range; every fifth one again for an entity with ETag and modification time next to one header that must not change the outcome (passing If-Match / If-None-Match / If-Unmodified-Since / If-Modified-Since, strongly matching If-Range). (a) exhaustive: entity lengths 1..={}, all sets of 1..{} specs in the three forms with positions 0..=L+2, separators ',' ', ' ',\\t'; (b) boundary: lengths {:?} with positions {{0,1,2,L-2..L+2,L/2,2^32,2^63,2^64-2,2^64-1,2^64,10^30}}, 1..4 specs; (c) multipart threshold sweep on L in {{1000,5000,10^6,2^63,2^64-1}} with 2..8 ranges around the 'plus 80 each under half' and 'sum >= L' lines and just inside 'sum + 80n < L', for entities with 0 / 80 / 250 / 1000 header bytes; (d) near-misses outside the grammar. Non-trivial = distinct (Range value, L) that is a grammatical bytes= set and was compared with the RFC 7233 model (status, Content-Range, parsed multipart ranges)",
             if thorough(ctx) { 8 } else { 5 }, if thorough(ctx) { 3 } else { 2 }, C03_BOUNDARY_LENS)
     }
     fn n_blocks(&self, ctx: &Ctx) -> usize {
@@ -844,6 +871,24 @@ impl Prop for C03 {
             c.extra_polls = 0;
             c.hdrs.push(("range".into(), value.to_vec()));
             exec(&c, sink, &c03_judge);
+            // every fifth request once more for an entity with validators, next to a header that
+            // must not change the outcome
+            let h = hash64(&(value, l));
+            if h % 5 == 0 {
+                let strong = (h / 5) % 3 != 0;
+                c.ent.etag = Some(if strong { b"\"v1\"".to_vec() } else { b"W/\"v1\"".to_vec() });
+                c.ent.mtime = Some((FIXED_SEC, 500_000_000));
+                let (k, v): (&str, Vec<u8>) = match (h / 15) % 6 {
+                    0 => ("if-match", b"*".to_vec()),
+                    1 => ("if-none-match", b"\"nope\"".to_vec()),
+                    2 => ("if-unmodified-since", fmt_date(FIXED_SEC + 1, DateStyle::Imf).into_bytes()),
+                    3 => ("if-modified-since", fmt_date(FIXED_SEC - 1, DateStyle::Imf).into_bytes()),
+                    4 if strong => ("if-range", b"\"v1\"".to_vec()),
+                    _ => ("if-none-match", b"W/\"zz\", \"a, b\"".to_vec()),
+                };
+                c.hdrs.insert(0, (k.into(), v));
+                exec(&c, sink, &c03_judge);
+            }
         };
         match kind {
             0 => {
@@ -1493,7 +1538,7 @@ impl Prop for C06 {
         "exploration"
     }
     fn rule(&self, _: &Ctx) -> String {
-        "block = entity length (400 .. 2^64-1, both sides of every decimal width) x entity header set {none, 1, 3, one 4 KiB value, repeated name}; inside: 2..8 ranges (ascending, overlapping, adjacent, duplicated, reversed; starts placed on decimal-width boundaries so 1..20-digit numbers occur as first, last and total; short, plus giant ranges for the big lengths) x with/without matching If-Range x chunk plans. Non-trivial = distinct case answered by a multipart 206 whose body was parsed by the length-driven reader and compared part by part (order, Content-Range, headers, bytes) and against Content-Length".into()
+        "block = entity length (400 .. 2^64-1, both sides of every decimal width) x entity header set {none, 1, 3, one 4 KiB value, repeated name}; inside: 2..8 ranges (ascending, overlapping, adjacent, duplicated, reversed; starts placed on decimal-width boundaries so 1..20-digit numbers occur as first, last and total; short, plus giant ranges for the big lengths) x {alone, with matching If-Range, next to a passing precondition} x chunk plans. Non-trivial = distinct case answered by a multipart 206 whose body was parsed by the length-driven reader and compared part by part (order, Content-Range, headers, bytes) and against Content-Length".into()
     }
     fn n_blocks(&self, _: &Ctx) -> usize {
         c06_lens().len() * c06_hdr_sets().len()
@@ -1595,8 +1640,13 @@ pub fn c06_block(b: usize, sink: &mut Sink, judge: &ServeJudge) {
                 ranges.reverse();
             }
             let value = format!("bytes={}", ranges.iter().map(|(a, b)| if rng.chance(1, 8) && *b == len - 1 { format!("{}-", a) } else { format!("{}-{}", a, b) }).collect::<Vec<_>>().join(if set_i % 2 == 0 { "," } else { ", " }));
-            for with_if_range in [false, true] {
-                let plan = plans[(set_i as usize + with_if_range as usize) % plans.len()].clone();
+            for variant in 0..3u8 {
+                // 0: Range alone, 1: with a matching If-Range, 2: next to a precondition that passes
+                let with_if_range = variant == 1;
+                if variant == 2 && set_i % 3 != 1 {
+                    continue;
+                }
+                let plan = plans[(set_i as usize + variant as usize) % plans.len()].clone();
                 let mut ent = EntSpec { len, etag: Some(b"\"v1\"".to_vec()), mtime: Some((FIXED_SEC, 0)), hdrs: hdrs.clone(), plan: plan.clone(), fault: None, slow_calls: false, content_mode: 0 };
                 if set_i % 3 == 0 {
                     ent.mtime = None;
@@ -1609,6 +1659,15 @@ pub fn c06_block(b: usize, sink: &mut Sink, judge: &ServeJudge) {
                 c.hdrs.push(("range".into(), value.clone().into_bytes()));
                 if with_if_range {
                     c.hdrs.push(("if-range".into(), b"\"v1\"".to_vec()));
+                }
+                if variant == 2 {
+                    let (k, v): (&str, Vec<u8>) = match (set_i / 3) % 4 {
+                        0 => ("if-match", b"*".to_vec()),
+                        1 => ("if-none-match", b"\"nope\", W/\"v1x\"".to_vec()),
+                        2 => ("if-match", b"\"zz\", \"v1\"".to_vec()),
+                        _ => ("if-unmodified-since", fmt_date(FIXED_SEC + 1, DateStyle::Imf).into_bytes()),
+                    };
+                    c.hdrs.insert(0, (k.into(), v));
                 }
                 c.data_kind = (set_i % 5 == 2) as u8;
                 exec(&c, sink, judge);
